@@ -7,11 +7,14 @@
 //!           | 'puta' off val | 'cas32' pos exp upd | 'cas64' pos exp upd | 'addo' off delta | 'gaa' off delta
 //!           | 'setm' pos len val | 'putb' off n | 'write' n | 'copy' off soff len | 'slice' | 'mslice' | 'sub' idx len
 //!           | 'gs' off | 'gswl' off len | 'gsl' off | 'ps' off n | 'pswl' off n
+//!           | 'dfw' off                                  DataHeaderFlyweight::new(buf, off): Flyweight::new over the 8-byte header, then
+//!                                                        Flyweight::overlay_struct::<DataHeaderDefn>(0) (28 bytes); reads term_id, returns data() - 24
 //!           | 'efw' off                                  ErrorResponseFlyweight::new(buf, off).error_code()
 //! Before each call a fresh fixture is built: region byte r = init_byte(r) for r in [-64, rcap+64), the 32-bit
 //! word w planted at offset p (where it falls inside the allocation); a second region of scap bytes (src_byte).
 //! observation per call: (Panic | Ok ([numbers], [bytes]), [(offset, new byte) of the first allocation], [... second])
 use aeron_rs::command::error_response_flyweight::ErrorResponseFlyweight;
+use aeron_rs::protocol::data_header_flyweight::{DataHeaderFlyweight, DATA_HEADER_DEFN_SIZE};
 use aeron_rs::concurrent::atomic_buffer::AtomicBuffer;
 use std::io::Write;
 use vcommon::{catch, fmt_list};
@@ -286,6 +289,13 @@ fn run_call(t: &mut Toks, buf: AtomicBuffer, base: isize, src: &AtomicBuffer) ->
             let data = slice_data(n);
             let r = buf.put_string_without_length(off, &data);
             (vec![r as i64], vec![])
+        }
+        "dfw" => {
+            let off = t.i32();
+            assert_eq!(DATA_HEADER_DEFN_SIZE, 28, "DataHeaderDefn layout changed");
+            let fw = DataHeaderFlyweight::new(buf, off);
+            let _ = fw.term_id();
+            (vec![(fw.data() as isize - base - 24) as i64], vec![])
         }
         "efw" => {
             let off = t.i32();
